@@ -172,7 +172,7 @@ func optBoolTerm(b *bool) string {
 func C16(seed int64, n int) (*cq.Set, *cq.Interner) {
 	r := rand.New(rand.NewSource(seed))
 	in := cq.NewInterner()
-	set := &cq.Set{Stream: "c16", Seed: seed, Imports: "Model.Api Model.Pod Model.Checks Model.Admission Model.Webhook Corr.Adm Corr.C16", CaseTy: "c16_case", RunFn: "run_c16",
+	set := &cq.Set{Stream: "c16", Seed: seed, Imports: "Model.Api Model.Pod Model.Checks Model.Admission Model.Wire Model.Webhook Corr.Adm Corr.C16", CaseTy: "c16_case", RunFn: "run_c16",
 		Rule: "HTTP exchanges with HandleValidate (hook H2, fake namespace source, marker evaluator): well-formed v1 reviews for pods in privileged / restricted / baseline / exempt / malformed-label / missing namespaces, and each malformed class: no body, sizes 3MiB-1 / 3MiB / 3MiB+1, content types other than exactly application/json, undecodable JSON, unregistered version, another kind, review without request; plus a concurrent run of 8 clients x 400 reviews answered from shared response objects, checking every UID, and the shared objects' UID fields afterwards; distinct by (class, review); non-trivial = every case"}
 	srv, a := buildServer()
 	cfg := c16Cfg()
@@ -234,6 +234,16 @@ func C16(seed int64, n int) (*cq.Set, *cq.Interner) {
 	podJSON, _ := json.Marshal(&corev1.Pod{TypeMeta: metav1.TypeMeta{APIVersion: "v1", Kind: "Pod"}, ObjectMeta: metav1.ObjectMeta{Name: "p"}})
 	add("otherkind-pod", rs, podJSON, true, "application/json", "otherkind")
 	add("norequest", rs, rs.body(false, "admission.k8s.io/v1", "AdmissionReview", 0), true, "application/json", "norequest")
+	// ... also right after well-formed traffic, repeatedly: state kept between requests (pooled objects,
+	// reused buffers) must not turn a review without request into an answered one
+	for i := 0; i < 24; i++ {
+		rs3 := randReview(r, 300000+i)
+		add("wellformed", rs3, rs3.body(true, "admission.k8s.io/v1", "AdmissionReview", 0), true, "application/json", "review")
+		add("norequest-after-traffic", rs3, rs3.body(false, "admission.k8s.io/v1", "AdmissionReview", 0), true, "application/json", "norequest")
+		if i%4 == 0 {
+			add("garbage-after-traffic", rs3, []byte("{not json"), true, "application/json", "garbage")
+		}
+	}
 	base := len(rs.body(true, "admission.k8s.io/v1", "AdmissionReview", 1)) - 1
 	for _, size := range []int{limit - 1, limit, limit + 1, limit + 4096} {
 		b := rs.body(true, "admission.k8s.io/v1", "AdmissionReview", size-base)
